@@ -66,7 +66,10 @@ attack = st.one_of(
         "attacker-signed", "attacker-signed-keep-root", "swap-pubkey", "swap-salt", "swap-token", "swap-root-only",
         "other-session", "wrong-pin", "other-type", "sig-reencode", "empty-sig", "payload-extra"])}),
     st.fixed_dictionaries({"cls": st.just("challenge"), "kind": st.sampled_from([
-        "wrong-token-right-key", "right-token-wrong-key", "crc-plaintext", "other-address", "token-plus-one", "garbage-under-key"])}),
+        "wrong-token-right-key", "right-token-wrong-key", "crc-plaintext", "other-address", "token-plus-one", "garbage-under-key",
+        "token-bit-flip", "token-bit-flip", "token-offset"]), "bit": st.integers(0, 63), "off": st.sampled_from([2 ** 31, -2 ** 31, 2 ** 32, -2 ** 32, 2 ** 30, 2 ** 63 - 2 ** 31])}),
+    st.fixed_dictionaries({"cls": st.just("late-hello"), "kind": st.sampled_from(["other-session", "own", "attacker-signed", "own-bytes-flipped"]),
+                           "seq_ahead": st.sampled_from([1, 5, 40, 300]), "msg_ahead": st.sampled_from([1, 40, 300, 2000])}),
     st.fixed_dictionaries({"cls": st.just("schedule"), "ops": st.lists(st.tuples(st.sampled_from([1, 2, 3]), st.sampled_from(
         ["drop", "dup-now", "dup-late", "dup-very-late", "delay"])).map(list), min_size=1, max_size=3)}),
 )
@@ -265,6 +268,13 @@ class Mitm(object):
         elif kind == "token-plus-one":
             m.token = token + 1
             d = W.build_datagram(True, h.ctime, h.seq, h.ack, h.ack_bits, W.T_CHALLENGE, [(2, W.T_CHALLENGE, m.dumpb())], key=key)
+        elif kind in ("token-bit-flip", "token-offset"):
+            # any value other than the issued token, in particular values congruent to it modulo a power of two
+            v = token ^ (1 << self.a.get("bit", 31)) if kind == "token-bit-flip" else token + self.a.get("off", 2 ** 31)
+            if not -2 ** 63 <= v < 2 ** 63:
+                v = token ^ (1 << 31)
+            m.token = v
+            d = W.build_datagram(True, h.ctime, h.seq, h.ack, h.ack_bits, W.T_CHALLENGE, [(2, W.T_CHALLENGE, m.dumpb())], key=key)
         elif kind == "right-token-wrong-key":
             m.token = token
             d = W.build_datagram(True, h.ctime, h.seq, h.ack, h.ack_bits, W.T_CHALLENGE, [(2, W.T_CHALLENGE, m.dumpb())], key=self.ent.bytes(16))
@@ -386,10 +396,47 @@ def body(ctx, c, stats=None):
                 w.server_send(ch.laddr, W.payload_for(1000 + i, 30), callback=False)
                 w.step(0.02)
                 check_step()
+        if a["cls"] == "late-hello" and ch.connected():
+            # after the session is established (and busy) the attacker sends the client a clear SERVER_HELLO with fresh
+            # datagram / message sequence numbers and a valid CRC: a genuine hello recorded from another session of the same
+            # server, the session's own hello, or one signed by the attacker.  Both ends must keep the key they agreed.
+            key_before = (ch.conn.session_key_bytes, ch.conn.token)
+            g = mitm.seen.get(2)
+            if g is not None:
+                p = W.parse_datagram(g, None)
+                own = p.msgs[0][2]
+                if a["kind"] == "other-session":
+                    otid, oroot, opayload, osig = split_hello(other_hello)
+                    msg = join_hello(otid, oroot, opayload, osig)
+                elif a["kind"] == "own":
+                    msg = own
+                elif a["kind"] == "own-bytes-flipped":
+                    msg = own[:-3] + bytes([own[-3] ^ 0x40]) + own[-2:]
+                else:
+                    tid, root_, payload_, sig_ = split_hello(own)
+                    pub_, salt_, token_ = split_payload(payload_)
+                    pl = ser(mitm.atk_eph.getPublicKey().getBytes()) + ser(salt_) + ser(token_)
+                    msg = join_hello(tid, mitm.atk_root.getPublicKey().getBytes(), pl, mitm.atk_root.sign(pl))
+                cur = int(ch.conn.bitfield_pkt.current_seqnum)
+                mcur = int(ch.conn.bitfield_msg.current_seqnum)
+                seq = (cur - 1 + a["seq_ahead"]) % 65535 + 1
+                mseq = (mcur - 1 + a["msg_ahead"]) % 65535 + 1
+                d = W.build_datagram(False, int(w.clock.t), seq, 0, 0, W.T_SERVER_HELLO, [(mseq, W.T_SERVER_HELLO, msg)])
+                w.net.push(w.clock.t + 0.001, ch.laddr, w.server_addr, d)
+                mitm.classes.add("late-hello-" + a["kind"])
+                for _ in range(10):
+                    w.step(0.02)
+                    check_step()
+                if ch.conn is not None and (ch.conn.session_key_bytes, ch.conn.token) != key_before:
+                    ctx.violation("late-hello-rekeyed-client", "attack %r: an established client replaced its key/token on a clear SERVER_HELLO" % (a,))
         for _ in range(70):
             w.step(0.02)
             check_step()
         sc = w.ctxt.connections.get(ch.laddr)
+        if a["cls"] == "late-hello":
+            if not ch.connected() or sc is None or ch.conn.session_key_bytes != sc.session_key_bytes:
+                ctx.violation("late-hello-disturbed-session", "attack %r: client %s, server has connection %s, keys equal %s" % (
+                    a, ch.status(), sc is not None, sc is not None and ch.conn is not None and ch.conn.session_key_bytes == sc.session_key_bytes))
         tampered = a["cls"] in ("bytes", "hello", "challenge")
         if a["cls"] == "none" or (a["cls"] == "schedule" and not any(op == "drop" for _, op in a["ops"])):
             # B / D: honest datagrams only (possibly duplicated, delayed): both ends connected with one key
@@ -460,10 +507,11 @@ def run_shard(spec, ctx):
         if r["other_session_accepted"]:
             ctx.label("other-session-hello-accepted(classified)")
         nt = (a["cls"] in ("bytes", "hello") and r["verify_calls"] > 0 and (a["cls"] == "hello" or a.get("which") == 2)) \
-            or (a["cls"] == "challenge" and a["kind"] in ("wrong-token-right-key", "token-plus-one", "garbage-under-key")) \
+            or (a["cls"] == "challenge" and a["kind"] in ("wrong-token-right-key", "token-plus-one", "garbage-under-key", "token-bit-flip", "token-offset")) \
+            or a["cls"] == "late-hello" \
             or (a["cls"] == "schedule" and any(op in ("dup-late", "dup-very-late") for _, op in a["ops"]))
         if nt:
-            ctx.nt((a["cls"], a.get("kind"), tuple(a["op"][:1]) if "op" in a else None, repr(a.get("ops")), c["seed"]))
+            ctx.nt((a["cls"], a.get("kind"), a.get("bit"), a.get("off"), a.get("seq_ahead"), tuple(a["op"][:1]) if "op" in a else None, repr(a.get("ops")), c["seed"]))
         ctx.sample({"attack": a, "flavour": c["flavour"], "client": r["client"], "promoted": r["promoted"]})
     test()
 
